@@ -34,7 +34,7 @@ def sv(file, twin):
     # operator=: `if (this == &other) return *this; clear();` exists only in the repaired code (C14_assign_over_live.patch)
     self_guard = [r'\(self == &\(\*other\)\)', '(self == other)', 0]
     pieces = [
-        {'op': 'glue', 'text': '#include "c14_sv.h"\n#include "c14_std_stubs.h"\n'
+        {'op': 'glue', 'text': '#include "c14_sv.h"\n#include "c14_std_stubs.h"\n#include "elem_algos.h"\n'
                                '/* R4: the inline storage member, copied here as an anchor (the extraction stops if it changes):'},
         {'op': 'lines', 'file': file,
          'regex': r'^\s*typename ' + NS + r'::aligned_storage<sizeof\(T\), alignof\(T\)>::type _data\[N\];\s*$', 'min': 1},
@@ -114,7 +114,10 @@ def sv(file, twin):
                         r'for (size_t lst_i = 0; lst_i < lst_len; ++lst_i)\1{ const ELEM *obj = &lst[lst_i];', 1],
                        [r'new \((&self->_data\[self->m_size\])\) ELEM\(obj\);', r'ELEM_copy_construct(\1, obj);', 1]]),
         ]
-    return [{'out': 'cxx/sv.c', 'typedefs': ['static_vector'], 'pieces': pieces}]
+    methods_all = {C: {'begin': 'static_vector_begin', 'end': 'static_vector_end', 'data': 'static_vector_data', 'size': 'static_vector_size',
+                       'room': 'static_vector_room', 'clear': 'static_vector_clear', 'push_back': 'static_vector_push_back',
+                       'resize': 'static_vector_resize'}}
+    return [{'out': 'cxx/sv.c', 'typedefs': ['static_vector'], 'std_after': ['elemalgos'], 'methods_all': methods_all, 'pieces': pieces}]
 
 
 def ss(file, twin):
